@@ -71,9 +71,15 @@ Store(p, n, s) ==
 Refill == /\ reg' = [i \in 1..VB |-> (reg[i] * 3 + 7) % 251] /\ UNCHANGED <<mem, rd, wr, sig>> /\ depth' = depth + 1
           /\ last' = [op |-> "refill", p |-> 0, n |-> 0, s |-> "exact", before |-> mem]
 
+\* a prefetch hint: any pointer at all (also inaccessible ones), any count
+Prefetch(p, n) ==
+  /\ rd' = {} /\ wr' = {} /\ sig' = "none" /\ UNCHANGED <<mem, reg>> /\ depth' = depth + 1
+  /\ last' = [op |-> "prefetch", p |-> p, n |-> n, s |-> "exact", before |-> mem]
+
 \* pointers anywhere in the middle page and at both boundaries
 Ptrs == (PageBytes - 1)..(2 * PageBytes)
 Next == \/ \E p \in Ptrs, n \in 0..(N + 2), s \in Strategies : Load(p, n, s) \/ Store(p, n, s)
+        \/ \E p \in Addr, n \in {0, 1, PageBytes, 2 * PageBytes} : Prefetch(p, n)
         \/ Refill
 Spec == Init /\ [][Next]_vars
 
@@ -89,4 +95,6 @@ C09 == last.op \in {"load", "store"} =>
          /\ rd \cup wr \subseteq Addressed                        \* nothing outside the addressed elements
          /\ (Addressed \cap Prot = {} => sig = "none")            \* hence no fault when exactly that is accessible
          /\ (last.n = 0 => rd \cup wr = {})
+
+C20 == last.op = "prefetch" => mem = last.before /\ sig = "none" /\ rd \cup wr = {}
 =============================================================================
